@@ -31,6 +31,20 @@ var timeFiles = []string{
 	"pkg/datasource/sql/datasource/base/meta_cache.go",
 }
 
+// files that get scheduling points at their channel / sync.Map / mutex / atomic operations
+var pointFiles = []string{
+	"pkg/remoting/getty/getty_remoting.go",
+	"pkg/remoting/getty/getty_client.go",
+	"pkg/remoting/processor/client/client_on_response_processor.go",
+	"pkg/datasource/sql/async_worker.go",
+	"pkg/util/fanout/fanout.go",
+}
+
+const pointImport = "seata.apache.org/seata-go/pkg/util/vshim/vpoint"
+
+var syncCalls = map[string]bool{"Store": true, "Load": true, "Delete": true, "LoadOrStore": true, "LoadAndDelete": true,
+	"Lock": true, "RLock": true, "Inc": true, "CompareAndSwap": true}
+
 var timeFuncs = map[string]bool{"After": true, "NewTicker": true, "Now": true, "Sleep": true}
 
 func main() {
@@ -42,16 +56,34 @@ func main() {
 		fail(err)
 	}
 	replace := map[string]string{}
+	isTime, isPoint := map[string]bool{}, map[string]bool{}
+	var all []string
 	for _, rel := range timeFiles {
+		isTime[rel] = true
+		all = append(all, rel)
+	}
+	for _, rel := range pointFiles {
+		isPoint[rel] = true
+		if !isTime[rel] {
+			all = append(all, rel)
+		}
+	}
+	for _, rel := range all {
 		src := filepath.Join(*repo, rel)
 		fset := token.NewFileSet()
 		f, err := parser.ParseFile(fset, src, nil, parser.ParseComments)
 		if err != nil {
 			fail(fmt.Errorf("%s: %w", rel, err))
 		}
-		n := rewriteTime(f)
-		if n == 0 {
-			fail(fmt.Errorf("%s: no timer call found to virtualise (the file changed shape; update cmd/vrewrite)", rel))
+		if isTime[rel] {
+			if n := rewriteTime(f); n == 0 {
+				fail(fmt.Errorf("%s: no timer call found to virtualise (the file changed shape; update cmd/vrewrite)", rel))
+			}
+		}
+		if isPoint[rel] {
+			if n := rewritePoints(fset, f, filepath.Base(rel)); n == 0 {
+				fail(fmt.Errorf("%s: no synchronisation operation found to put a scheduling point at", rel))
+			}
 		}
 		var buf bytes.Buffer
 		if err := printer.Fprint(&buf, fset, f); err != nil {
@@ -217,4 +249,151 @@ func pruneUnused(f *ast.File, path, name string) {
 		}
 	}
 	f.Imports = imps
+}
+
+// ---- scheduling points ---------------------------------------------------------
+
+// hasSyncOp reports whether the expression/simple statement (not descending into function literals or blocks)
+// contains a channel operation or a listed sync call.
+func hasSyncOp(n ast.Node) (found bool, isChan bool) {
+	if n == nil {
+		return
+	}
+	ast.Inspect(n, func(x ast.Node) bool {
+		switch v := x.(type) {
+		case *ast.FuncLit, *ast.BlockStmt:
+			return false
+		case *ast.SendStmt:
+			found, isChan = true, true
+		case *ast.UnaryExpr:
+			if v.Op == token.ARROW {
+				found, isChan = true, true
+			}
+		case *ast.CallExpr:
+			if sel, ok := v.Fun.(*ast.SelectorExpr); ok && syncCalls[sel.Sel.Name] {
+				found = true
+			}
+		}
+		return true
+	})
+	return
+}
+
+func pointStmt(where string) ast.Stmt {
+	return &ast.ExprStmt{X: &ast.CallExpr{
+		Fun:  &ast.SelectorExpr{X: ast.NewIdent("vpoint"), Sel: ast.NewIdent("Point")},
+		Args: []ast.Expr{&ast.BasicLit{Kind: token.STRING, Value: strconv.Quote(where)}},
+	}}
+}
+
+func rewritePoints(fset *token.FileSet, f *ast.File, base string) int {
+	n := 0
+	where := func(s ast.Node, tag string) string {
+		return fmt.Sprintf("%s:%d%s", base, fset.Position(s.Pos()).Line, tag)
+	}
+	var doList func(list []ast.Stmt) []ast.Stmt
+	var doStmt func(s ast.Stmt)
+	doFuncLits := func(node ast.Node) {
+		if node == nil {
+			return
+		}
+		ast.Inspect(node, func(x ast.Node) bool {
+			if fl, ok := x.(*ast.FuncLit); ok {
+				fl.Body.List = doList(fl.Body.List)
+				return false
+			}
+			if _, ok := x.(*ast.BlockStmt); ok {
+				return false
+			}
+			return true
+		})
+	}
+	doStmt = func(s ast.Stmt) {
+		switch v := s.(type) {
+		case *ast.BlockStmt:
+			v.List = doList(v.List)
+		case *ast.IfStmt:
+			v.Body.List = doList(v.Body.List)
+			if v.Else != nil {
+				doStmt(v.Else)
+			}
+		case *ast.ForStmt:
+			v.Body.List = doList(v.Body.List)
+		case *ast.RangeStmt:
+			v.Body.List = doList(v.Body.List)
+		case *ast.SwitchStmt:
+			for _, c := range v.Body.List {
+				cc := c.(*ast.CaseClause)
+				cc.Body = doList(cc.Body)
+			}
+		case *ast.TypeSwitchStmt:
+			for _, c := range v.Body.List {
+				cc := c.(*ast.CaseClause)
+				cc.Body = doList(cc.Body)
+			}
+		case *ast.SelectStmt:
+			for _, c := range v.Body.List {
+				cc := c.(*ast.CommClause)
+				body := doList(cc.Body)
+				cc.Body = append([]ast.Stmt{pointStmt(where(cc, "+"))}, body...)
+				n++
+			}
+		case *ast.LabeledStmt:
+			doStmt(v.Stmt)
+		}
+	}
+	doList = func(list []ast.Stmt) []ast.Stmt {
+		var out []ast.Stmt
+		for _, s := range list {
+			var head ast.Node = s
+			switch v := s.(type) {
+			case *ast.IfStmt:
+				head = &ast.BlockStmt{} // examined below via Init/Cond
+				f1, _ := hasSyncOp(v.Init)
+				f2, _ := hasSyncOp(v.Cond)
+				if f1 || f2 {
+					out = append(out, pointStmt(where(s, "")))
+					n++
+				}
+			case *ast.ForStmt, *ast.RangeStmt, *ast.SwitchStmt, *ast.TypeSwitchStmt, *ast.BlockStmt, *ast.LabeledStmt:
+				head = &ast.BlockStmt{}
+			case *ast.SelectStmt:
+				head = &ast.BlockStmt{}
+				out = append(out, pointStmt(where(s, "")))
+				n++
+			case *ast.DeferStmt, *ast.GoStmt:
+				head = &ast.BlockStmt{}
+			}
+			found, isChan := hasSyncOp(head)
+			if found {
+				out = append(out, pointStmt(where(s, "")))
+				n++
+			}
+			doFuncLits(func() ast.Node {
+				switch v := s.(type) {
+				case *ast.IfStmt, *ast.ForStmt, *ast.RangeStmt, *ast.SwitchStmt, *ast.TypeSwitchStmt, *ast.BlockStmt, *ast.SelectStmt, *ast.LabeledStmt:
+					return nil
+				default:
+					return v
+				}
+			}())
+			doStmt(s)
+			out = append(out, s)
+			if found && isChan {
+				if _, isRet := s.(*ast.ReturnStmt); !isRet {
+					out = append(out, pointStmt(where(s, "+")))
+				}
+			}
+		}
+		return out
+	}
+	for _, d := range f.Decls {
+		if fd, ok := d.(*ast.FuncDecl); ok && fd.Body != nil {
+			fd.Body.List = doList(fd.Body.List)
+		}
+	}
+	if n > 0 {
+		addImport(f, pointImport, "vpoint")
+	}
+	return n
 }
